@@ -1,7 +1,7 @@
 CONSTANTS
   Widths = {3, 16, 32, 48, 144}
   MaxReq = 3
-  Pads = {0, 50000, 70000}
+  Pads = {0, 1500, 50000, 70000}
   NativeArmEmpty = FALSE
   AllowLateRequest = FALSE
   EmitCases = FALSE
